@@ -2,7 +2,7 @@
    Print Assumptions.  Costs are integers (dyadic floats scaled by 2^30; 2^-26 is 16). *)
 From Coq Require Import ZArith List Bool.
 From Centro Require Import Base.Sx Model.Lapjv Spec.Lapjv Proofs.LapjvCert Proofs.LapjvRefute Proofs.LapjvTrack
-  Proofs.LapjvPhases Proofs.LapjvAbstract Proofs.LapjvGrid Proofs.LapjvArr Proofs.LapjvRows Proofs.LapjvTrackCost Proofs.LapjvRt Proofs.LapjvHall Proofs.LapjvBsearch Proofs.LapjvTrackLink Proofs.LapjvArrExt Proofs.LapjvExtModel Proofs.LapjvAugMarks Proofs.LapjvAugFlip Proofs.LapjvAugPred Proofs.LapjvAugRows Proofs.LapjvPerm Proofs.LapjvFixedPerm Proofs.LapjvAugFuel.
+  Proofs.LapjvPhases Proofs.LapjvAbstract Proofs.LapjvGrid Proofs.LapjvArr Proofs.LapjvRows Proofs.LapjvTrackCost Proofs.LapjvRt Proofs.LapjvHall Proofs.LapjvBsearch Proofs.LapjvTrackLink Proofs.LapjvArrExt Proofs.LapjvExtModel Proofs.LapjvAugMarks Proofs.LapjvAugFlip Proofs.LapjvAugPred Proofs.LapjvAugRows Proofs.LapjvPerm Proofs.LapjvFixedPerm Proofs.LapjvAugFuel Proofs.LapjvAugPrice Proofs.LapjvAugStamps Proofs.LapjvAugOpt.
 Import ListNotations.
 Open Scope Z_scope.
 
@@ -333,7 +333,7 @@ Theorem C01_aug_pred_chain : forall (r n : nat) (rows : list (list (nat * ext)))
   aug_loop (S (S n)) r n inf rows y v (mkAug d pred (m_done ms) ontodo (map fst row_r) [] [] inf) = Some (s', j1) ->
   (j1 < n)%nat /\ getn y j1 n = n /\ length (g_pred s') = n /\ length (g_done s') = n /\ length (g_ontodo s') = n /\
   exists chain, chain_ok r n (g_pred s') x j1 chain /\ NoDup chain /\ (length chain <= S n)%nat /\
-    forall i, In i chain -> i = r \/ exists j', (j' < n)%nat /\ i = getn y j' n /\ i <> n.
+    forall i, In i chain -> i = r \/ exists j', In j' (g_ready s') /\ (j' < n)%nat /\ i = getn y j' n /\ i <> n /\ getn x i n = j'.
 Proof. exact aug_pred_chain. Qed.
 Print Assumptions C01_aug_pred_chain.
 
@@ -351,7 +351,8 @@ Theorem C01_aug_flip_chain : forall (r n : nat) (rows : list (list (nat * ext)))
   exists x' y', aug_flip (S n) r (g_pred s') j1 x y n = Some (x', y') /\ length x' = n /\ length y' = n /\
     PIh n x' y' None /\ (exists j, (j < n)%nat /\ getn y' j n = r) /\
     getn y' j1 n <> n /\ (forall j, getn y j n <> n -> getn y' j n <> n) /\
-    (forall i', i' <> r -> free n y i' -> free n y' i').
+    (forall i', i' <> r -> free n y i' -> free n y' i') /\
+    (forall j, getn y' j n = getn y j n \/ (getn y' j n = getn (g_pred s') j n /\ (In j (g_ready s') \/ j = j1))).
 Proof. exact aug_flip_full. Qed.
 Print Assumptions C01_aug_flip_chain.
 
@@ -383,6 +384,48 @@ Theorem C01_aug_loop_fuel : forall (r n : nat) (rows : list (list (nat * ext))) 
   forall fuel', (fuel <= fuel')%nat -> aug_loop fuel' r n inf rows y v s = None.
 Proof. exact aug_loop_fuel. Qed.
 Print Assumptions C01_aug_loop_fuel.
+
+(* Phase 4, the price update (:442-445) - the mathematical core of the augmentation on the array model, finite prices:
+   given the Dijkstra facts DistInv (H1 d <= umin on ready, H2 d >= umin elsewhere, H3/H4 edge inequalities from r and from
+   the rows of ready columns (H4 with the disjunct d[jh] = umin for the row whose scan the loop exited from), H5 tight pred links on ready and at the exit column, H6 d[j1] = umin), the updated prices
+   together with any assignment whose pairs are old pairs or pred pairs at ready columns / j1 satisfy Inv again. *)
+Theorem C01_aug_price_slack : forall (n : nat) (rows : list (list (nat * ext))) (r : nat) (x y : list nat) (v d : list ext)
+    (pred ready : list nat) (mu : Z) (j1 : nat),
+  (forall i j c, In (j, c) (row rows i) -> (j < n)%nat /\ exists z, c = Fin z) ->
+  (forall i, NoDup (map fst (row rows i))) ->
+  forall x' y', Inv n rows x y v -> (r < n)%nat -> DistInv n rows r y v d pred ready mu j1 ->
+  NoDup ready -> (forall j, In j ready -> (j < n)%nat /\ (exists z, gete d j = Fin z) /\ getn y j n <> n) ->
+  PIh n x' y' None -> length x' = n -> length y' = n ->
+  (forall j i, (j < n)%nat -> getn y' j n = i -> i <> n ->
+     getn y j n = i \/ (getn pred j n = i /\ (In j ready \/ j = j1))) ->
+  Inv n rows x' y' (aug_prices d (Fin mu) ready v).
+Proof. exact aug_price_slack. Qed.
+Print Assumptions C01_aug_price_slack.
+
+(* stamp hygiene: processing row r writes only r into done / on_to_do *)
+Theorem C01_aug_loop_stamps : forall (r n : nat) (rows : list (list (nat * ext))) (y : list nat) (v : list ext) (inf : ext)
+    fuel s s' j1, aug_loop fuel r n inf rows y v s = Some (s', j1) ->
+  only_r r n (g_done s) (g_done s') /\ only_r r n (g_ontodo s) (g_ontodo s').
+Proof. exact aug_loop_stamps. Qed.
+Print Assumptions C01_aug_loop_stamps.
+
+(* "returns => optimal", reduced to ONE named lemma.  DistHyp n rows inf is the STATEMENT of the missing aug_dist_inv: on
+   every returning run of the Dijkstra loop of a free row (from a state with St, Inv and clean stamps) DistInv holds.  Under
+   it: whenever the (Fixed, eps 0 at :202) model returns, x is a minimum-cost perfect matching (the duals
+   u_i = c(i, x_i) - v(x_i), v certify it).  _partial: DistHyp itself is not proved (the traversal of aug_min / aug_relax /
+   aug_loop with the distance facts; none of them needs the bound d <= sum(c)), and the finite-price premise
+   (>= 2 candidates per row) is kept here. *)
+Theorem C01_lapjv_fixed_optimal_if_returns_partial : forall n tri,
+  (forall t, In t tri -> (t_i t < n)%nat /\ (t_j t < n)%nat) ->
+  NoDup (map fst tri) ->
+  (forall j, (j < n)%nat -> exists t, In t tri /\ t_j t = j) ->
+  has_PM n tri ->
+  (forall i, (i < n)%nat -> (2 <= length (filter (fun t => (t_i t =? i)%nat) tri))%nat) ->
+  DistHyp n (rows_of n tri) (model_inf n tri) ->
+  forall epsr k x y u v, 0 <= epsr ->
+  lapjv Fixed 0 epsr k n tri = Some (x, y, u, v) -> Optimal n tri x.
+Proof. exact lapjv_fixed_optimal_if_returns. Qed.
+Print Assumptions C01_lapjv_fixed_optimal_if_returns_partial.
 
 (* completeness of phases 1-3 (every row is pending or assigned) ... *)
 Theorem C01_phase1_comp : forall n tri,
